@@ -326,8 +326,8 @@ class AnsiString:
         start = self._slice_val_to_idx(start, 0)
         end = self._slice_val_to_idx(end, len(self._s))
 
-        if not settings or start >= len(self._s) or end <= start:
-            # Ignore - nothing to apply
+        if (not settings and not isinstance(settings, int)) or start >= len(self._s) or end <= start:
+            # Ignore - nothing to apply (the integer 0 is a setting, not an empty list)
             return
 
         ansi_settings = _AnsiSettingPoint._scrub_ansi_settings(settings, make_unique=True)
@@ -388,7 +388,7 @@ class AnsiString:
         start = self._slice_val_to_idx(start, 0)
         end = self._slice_val_to_idx(end, len(self._s))
 
-        if (settings is not None and not settings) or start >= len(self._s) or end <= start:
+        if (settings is not None and not settings and not isinstance(settings, int)) or start >= len(self._s) or end <= start:
             # Ignore - nothing to apply
             return
 
@@ -398,7 +398,7 @@ class AnsiString:
         if end not in self._fmts:
             self._fmts[end] = _AnsiSettingPoint()
 
-        if not settings:
+        if settings is None:
             ansi_settings = None
         else:
             ansi_settings = _AnsiSettingPoint._scrub_ansi_settings(settings)
